@@ -348,6 +348,9 @@ class Reference:
     """expected one-leaf unitary S(tau) of an algorithm, exact (no global phase dropped)"""
 
     def __init__(self, ctx, lad, alg_name, ham, n):
+        lr_kwargs = {}
+        if isinstance(alg_name, tuple):
+            alg_name, lr_kwargs = alg_name
         self.ctx, self.lad, self.alg, self.ham, self.n = ctx, lad, alg_name, ham, n
         of = ctx.of
         if alg_name in ('LSN', 'SO'):
@@ -359,8 +362,9 @@ class Reference:
             from openfermion.circuits import low_rank_two_body_decomposition
             self.H = interaction_matrix(lad, ham, n)
             self.const = ham.constant
-            ev, obs, corr, _ = low_rank_two_body_decomposition(ham.two_body_tensor, truncation_threshold=1e-8,
-                                                               final_rank=None, spin_basis=True)
+            ev, obs, corr, _ = low_rank_two_body_decomposition(
+                ham.two_body_tensor, truncation_threshold=lr_kwargs.get('truncation_threshold', 1e-8),
+                final_rank=lr_kwargs.get('final_rank'), spin_basis=True)
             self.lr_T = one_body_matrix(lad, n, ham.one_body_tensor + corr)
             self.lr_terms = []
             for j in range(len(ev)):
@@ -420,6 +424,9 @@ class Reference:
 
 def algorithm(of, name):
     from openfermion.circuits import trotter
+    if isinstance(name, tuple):
+        from openfermion.circuits.trotter.algorithms.low_rank import LowRankTrotterAlgorithm
+        return LowRankTrotterAlgorithm(**name[1])
     return {'LSN': trotter.LINEAR_SWAP_NETWORK, 'SO': trotter.SPLIT_OPERATOR, 'LR': trotter.LOW_RANK}[name]
 
 
@@ -1301,7 +1308,117 @@ def ops_stream(ctx):
     return st
 
 
+def lowrank_degenerate_stream(ctx, lad):
+    """LOW_RANK on Hamiltonians whose decomposition retains vanishing singular components"""
+    import cirq
+    of = ctx.of
+    st = Stream('low-rank-degenerate', 'LOW_RANK (uncontrolled and controlled) on InteractionOperators whose low-rank decomposition '
+                'keeps vanishing components or is truncated: identically zero two-body tensor (one zero component is always kept), '
+                'LowRankTrotterAlgorithm(final_rank = k) for k below / at / above the true rank, truncation_threshold variants; '
+                'n_steps 1, 2, 3, omit_final_swaps False / True, control qubit yes / no: circuit unitary vs the product of '
+                'exponentials of the RETAINED components (Spec ladders, leaf bookkeeping and final qubit order from the Lean Model '
+                'with the retained component count), exact exp(-iHt) where nothing is truncated and the pieces commute, error ratio '
+                'under step doubling where nothing is truncated; step-level: gates of one trotter_step vs the Model lrStep; '
+                'distinct = distinct configurations')
+    rng = rng_for(ctx.seed, 'c15-lrdeg')
+    lad.prefetch([4])
+    from openfermion.circuits.trotter.algorithms import low_rank as lr
+    base = eightfold(of, rng, 2)
+    zero2 = of.InteractionOperator(0.25, np.array(base.one_body_tensor).copy(), np.zeros_like(base.two_body_tensor))
+    diag1 = of.InteractionOperator(-0.5, np.diag(np.diag(np.array(base.one_body_tensor))).copy(),
+                                   np.zeros_like(base.two_body_tensor))
+    # excluded because the unmodified tree rejects them (probed when the check was built): final_rank above the true rank of the
+    # two-body tensor — also for the zero tensor with final_rank >= 2 — raises ValueError('one_body_matrix is not Hermitian') in
+    # prepare_one_body_squared_evolution (the null components come out as arbitrary, non-Hermitian mixtures), final_rank above
+    # n_orbitals^2 raises IndexError, spin_basis=False raises ValueError for spin-orbital tensors
+    configs = [('zero two-body', zero2, {}, True), ('zero two-body', zero2, {'final_rank': 1}, True),
+               ('zero two-body', zero2, {'truncation_threshold': 0.5}, True),
+               ('zero two-body, diagonal one-body', diag1, {}, True),
+               ('generic', base, {'final_rank': 3}, True), ('generic', base, {'truncation_threshold': 100.0}, False), ('generic', base, {'final_rank': 2}, False),
+               ('generic', base, {'final_rank': 1}, False), ('generic', base, {'truncation_threshold': 0.5}, False),
+               ('generic', base, {'truncation_threshold': 1e-12}, True)]
+    n = 4
+    for name, ham, kw, untruncated in configs:
+        algn = ('LR', kw)
+        ok, ref = safe(st, 'building the reference (decompositions of the library)',
+                       {'hamiltonian': name, 'algorithm_args': kw}, lambda: Reference(ctx, lad, algn, ham, n))
+        if not ok:
+            continue
+        st.count('components:%d' % ref.rank)
+        for n_steps in (1, 2, 3):
+            for controlled, omit in ((False, False), (False, True), (True, False), (True, True)):
+                if ctx.tier == 'quick' and not ctx.drift and n_steps == 2 and controlled and omit:
+                    continue
+                time = rng.choice([0.5, -0.25])
+                case = {'hamiltonian': name, 'algorithm_args': kw, 'components': ref.rank, 'n_steps': n_steps, 'time': time,
+                        'controlled': controlled, 'omit_final_swaps': omit}
+                st.case(case)
+                ok, U = real_unitary(ctx, st, case, algn, ham, n, time, n_steps, 0, controlled, omit)
+                if not ok:
+                    continue
+                E, _, R = expected_unitary(ctx, ref, time, n_steps, 0, omit)
+                st.count('final:reversed' if R is not None else 'final:identity')
+                compare(st, case, 'formula: LOW_RANK circuit = product of exponentials of the retained components, final '
+                        'qubit order as documented', U, E, ref.const, time, controlled, R)
+                if untruncated and name.startswith('zero'):
+                    compare(st, case, 'exact: zero two-body tensor gives exp(-iHt)', U, expm_h(ref.H, time), ref.const, time,
+                            controlled, R)
+        if untruncated and name == 'generic':
+            errs = []
+            for n_steps in (2, 4):
+                ok, U = real_unitary(ctx, st, {'hamiltonian': name, 'algorithm_args': kw}, algn, ham, n, 0.5, n_steps, 0,
+                                     False, False)
+                if ok:
+                    errs.append(phase_diff(U, expm_h(ref.H, 0.5)))
+            st.float_comparisons += 1
+            if len(errs) == 2 and errs[0] >= 1e-7 and not errs[1] * 1.4 <= errs[0]:
+                st.violate('convergence: LOW_RANK with vanishing retained components does not converge at first order',
+                           {'hamiltonian': name, 'algorithm_args': kw}, {'error_n2': errs[0], 'error_n4': errs[1]})
+        # one trotter_step, gate by gate, against the Model (density-density network of every retained component)
+        qubits = [cirq.LineQubit(2 * i) for i in range(n)]
+        pos = {q: i for i, q in enumerate(qubits)}
+        control = cirq.LineQubit(99)
+        for cls, ctl in ((lr.AsymmetricLowRankTrotterStep, False), (lr.ControlledAsymmetricLowRankTrotterStep, True)):
+            case = {'hamiltonian': name, 'algorithm_args': kw, 'step': cls.__name__}
+            st.case(case)
+            tstep = 0.5
+            ok, res = safe(st, '%s.trotter_step' % cls.__name__, case, lambda: (lambda stp: (stp, list(cirq.flatten_op_tree(
+                stp.trotter_step(qubits, tstep, control if ctl else None)))))(
+                cls(ham, kw.get('truncation_threshold', 1e-8), kw.get('final_rank'), True)))
+            if not ok:
+                continue
+            stp, ops = res
+            cs = [np.asarray(m) for m in stp.scaled_density_density_matrices]
+            if len(cs) != ref.rank:
+                st.violate('step object keeps %d components, the decomposition %d' % (len(cs), ref.rank), case, {})
+                continue
+            real, nswaps, other, bad = parse_step_ops(cirq, of, ops, pos, control if ctl else None, tstep)
+            if nswaps != len(cs) * n * (n - 1) // 2:
+                st.violate('number of SWAPs in the step', case, {'got': nswaps, 'components': len(cs)})
+            mo = ctx.driver.one({'op': 'c15.step', 'kind': 'lr', 'n': n,
+                                 'cs': [[[rat(Fraction(float(c[p, q]))) for q in range(n)] for p in range(n)] for c in cs],
+                                 'E': [rat(Fraction(float(x))) for x in stp.one_body_energies]})
+            perm = stp.step_qubit_permutation(list(qubits), control if ctl else None)[0]
+            if (list(perm) == list(qubits)[::-1]) != bool(mo['reverses']):
+                st.disagree('step_qubit_permutation vs the parity of the retained component count', case,
+                            [pos[q] for q in perm], mo['reverses'])
+            r2 = [r_ for r_ in real if r_[0] == 2]
+            m2 = [m for m in mo['entries'] if m[0] == 2]
+            st.float_comparisons += len(r2)
+            if len(r2) != len(m2) or any(a[1] != b[3] or abs(a[2] - float(frac(b[4]))) > 1e-12 for a, b in zip(r2, m2)):
+                st.disagree('density-density network of the step vs the Model lrStep', case, len(r2), len(m2))
+            # finish: swaps back exactly when n_steps and the component count are both odd and swaps are not omitted
+            for nst in (1, 2):
+                for om in (False, True):
+                    fin = list(cirq.flatten_op_tree(stp.finish(list(qubits), nst, control if ctl else None, om)))
+                    want = (nst % 2 == 1) and (len(cs) % 2 == 1) and not om
+                    if bool(fin) != want:
+                        st.violate('finish: swap network present iff n_steps odd, component count odd, swaps not omitted', case,
+                                   {'n_steps': nst, 'omit_final_swaps': om, 'components': len(cs), 'n_ops': len(fin)})
+    return st
+
+
 def run(ctx):
     lad = Ladders(ctx.driver)
     return [recursion_stream(ctx), formula_stream(ctx, lad), symmetric_step_stream(ctx, lad), exactness_stream(ctx, lad),
-            hardening_stream(ctx, lad), ops_stream(ctx)]
+            hardening_stream(ctx, lad), ops_stream(ctx), lowrank_degenerate_stream(ctx, lad)]
